@@ -26,7 +26,7 @@ ASSUMPTIONS = [
 CLASSES = ["single-datum", "all-same-time", "unsorted", "span<=10ms", "span<1min", "span>50years", "touches-29-31", "leap-day", "year-end",
            "options-none", "options-empty", "ticks-off", "alg:simple", "alg:none", "bounds:maxPos", "bounds:minPos-none"]
 MIN_FRACTIONS = {"class:" + c: 0.02 for c in CLASSES}
-MIN_FRACTIONS.update({"class:single-datum": 0.05, "class:all-same-time": 0.05, "class:options-none": 0.04, "class:unsorted": 0.3})
+MIN_FRACTIONS.update({"class:leap-day": 0.004, "class:year-end": 0.004, "class:span<=10ms": 0.008, "class:single-datum": 0.05, "class:all-same-time": 0.05, "class:options-none": 0.04, "class:unsorted": 0.3})
 
 
 def budget(tier):
